@@ -15,7 +15,7 @@ def tmpdir():
     global _TMP
     if _TMP is None:
         import atexit
-        _TMP = tempfile.mkdtemp(prefix="verif_molgen_")
+        _TMP = tempfile.mkdtemp(prefix="verif_molgen_", dir="/dev/shm" if os.path.isdir("/dev/shm") and os.access("/dev/shm", os.W_OK) else None)  # the root fs is mounted with discard: rewriting small files there is slow
         atexit.register(lambda: shutil.rmtree(_TMP, ignore_errors=True))
     return _TMP
 
